@@ -154,7 +154,9 @@ Definition venn_params (xbin ybin nchan chunk fs : Z) : vparams :=
    the local bin floor((s - k c) / xbin) = floor((s cd - k cn) / (xbin cd)), the number of chunks
    floor(max / c) + 1 = (max cd) / cn + 1 and the scale length ceil((c + xbin/2) / xbin) = nscale cn (xbin cd):
    the computation IS the integer-chunk computation on the samples multiplied by the denominator.
-   (Exact for dyadic c, where k c and k c + c are exact in binary64; see notes for non-dyadic c.) *)
+   (Since fix bbf5c54 both edges of chunk k are the products fl(k c) and fl((k+1) c): the end of chunk k and the start of
+   chunk k+1 are literally the same float, so the chunks tile for every float c; the rational model describes the exact
+   products — it coincides with the code whenever k c is exact, e.g. dyadic c.) *)
 Definition in_chunk_q (cn cd k : Z) (sp : spike) : bool :=
   (k * cn <=? fst sp * cd) && (fst sp * cd <? (k + 1) * cn).
 Definition scale_spike (cd : Z) (sp : spike) : spike := (fst sp * cd, snd sp).
